@@ -13,6 +13,7 @@ for d in seeded/${1:-*}/; do
   # a change that breaks another property than the one its author was given is run against that property's check (meta.json: check_with)
   other=$(python3 -c "import json,sys; print(json.load(open('$d/meta.json')).get('check_with',''))" 2>/dev/null); [ -n "$other" ] && id=$other
   if grep -q '"status": "neutralised' $d/meta.json 2>/dev/null; then echo "$name SKIPPED (neutralised by a later repair, see meta.json)"; continue; fi
+  if grep -q "\"status\": \"open miss" $d/meta.json 2>/dev/null; then echo "$name OPEN MISS (not caught yet, see meta.json)"; continue; fi
   git -C $wt checkout -q -- . 
   # a seeded change only counts as caught if the same check is silent on the unpatched tree (checked once per property)
   if ! echo " $clean_ok " | grep -q " $id "; then
